@@ -2,6 +2,7 @@ import IstioModel.Common.Wire
 import IstioModel.C14.Snapshot
 import IstioModel.C14.Kernels
 import IstioModel.C14.ListenerConflict
+import IstioModel.C14.GatewayDup
 
 /-!
 Line-protocol driver of C14.
@@ -85,6 +86,8 @@ structure DState where
   /-- stream `domains`: the shared vhdomains set and the known FQDNs of the case -/
   vh    : List String := []
   known : List String := []
+  /-- stream `gwdup`: the (bind, host) table of the case -/
+  table : HostTable := []
 
 def showNamed (l : List NamedCluster) : String :=
   encList (l.map (fun c => c.1 ++ "#" ++ toString c.2))
@@ -108,6 +111,9 @@ def stepKernel (d : DState) (toks : List String) : Option (DState × String) :=
     let u := (decList unk).filter (fun n => r.contains n)
     some (d, s!"names={encSet (answered r)} empty={encSet u}")
   | ["rds", _, req] => some (d, s!"names={encSet (answered (decList req))}")
+  | ["cd", hosts, bind] =>
+    let r := checkDuplicates (decList hosts) (dec bind) d.table
+    some ({ d with table := r.2 }, s!"dups={encList r.1} table={encSet (r.2.map (fun p => p.1 ++ "/" ++ p.2))}")
   | ["lc", inc, wild, cur] =>
     match Proto.ofTok inc with
     | Option.none => some (d, "bad-op")
